@@ -1,0 +1,53 @@
+//go:build verif
+
+// Contracts for package searcher (comment-only with the verif tag off; read by /verif/gocv).
+
+package searcher
+
+// ---------------------------------------------------------------------------
+// C07: numeric range splitting
+// ---------------------------------------------------------------------------
+
+// A term range made by newRange(lo, hi, s) selects exactly the prefix-coded terms of
+// shift s whose value v satisfies lo>>s <= v>>s <= hi>>s (numeric lemma L5: byte order of
+// equal-shift terms is the order of the shifted values).
+
+//@ func newRange
+//@   props C07
+//@   mode bv
+//@   requires shift <= 63
+//@   ensures result != nil && fresh(result)
+//@   ensures isPrefixCoded(result.startTerm, minBound, shift)
+//@   ensures isPrefixCoded(result.endTerm, maxBound | ((int64(1)<<shift)-1), shift)
+
+// splitInt64Range: for every value v (ghost), exactly one emitted range covers v if
+// min <= v <= max and none otherwise: the ranges are pairwise disjoint and cover exactly
+// [min,max]. cnt counts the newRange calls whose value interval contains v; n counts all.
+// The value interval of newRange(a, b, s) is { x | a>>s <= x>>s <= b>>s }.
+
+//@ spec inBlock(v int64, lo int64, hi int64, s uint) bool = (lo >> s) <= (v >> s) && (v >> s) <= (hi >> s)
+
+//@ func splitInt64Range
+//@   props C07
+//@   mode bv
+//@   ghost v int64
+//@   ghostlocal cnt int = 0
+//@   ghostlocal n int = 0
+//@   requires precisionStep == 4
+//@   at call newRange#0 after: ghost cnt = cnt + ite(inBlock(v, arg0, arg1, arg2), 1, 0)
+//@   at call newRange#0 after: ghost n = n + 1
+//@   at call newRange#1 after: ghost cnt = cnt + ite(inBlock(v, arg0, arg1, arg2), 1, 0)
+//@   at call newRange#1 after: ghost n = n + 1
+//@   at call newRange#2 after: ghost cnt = cnt + ite(inBlock(v, arg0, arg1, arg2), 1, 0)
+//@   at call newRange#2 after: ghost n = n + 1
+//@   ensures implies(minBound > maxBound, len(result) == 0 && cnt == 0)
+//@   ensures implies(minBound <= maxBound, iff(cnt == 1, minBound <= v && v <= maxBound) && (cnt == 0 || cnt == 1))
+//@   ensures len(result) == n
+//@   loop 0: invariant precisionStep == 4 && shift <= 60 && shift % 4 == 0
+//@   loop 0: invariant minBound & ((int64(1) << shift) - 1) == 0 && maxBound & ((int64(1) << shift) - 1) == 0
+//@   loop 0: invariant minBound <= maxBound && old(minBound) <= old(maxBound)
+//@   loop 0: invariant cnt == 0 || cnt == 1
+//@   loop 0: invariant implies(inBlock(v, minBound, maxBound, shift), old(minBound) <= v && v <= old(maxBound))
+//@   loop 0: invariant iff(cnt == 1, old(minBound) <= v && v <= old(maxBound) && !inBlock(v, minBound, maxBound, shift))
+//@   loop 0: invariant len(rv) == n && n >= 0 && n <= 2*int(shift/4) && fresh(rv)
+//@   loop 0: decreases 64 - int(shift)
